@@ -3,6 +3,7 @@ from __future__ import annotations
 
 import base64
 import copy
+import hashlib
 import io
 import json
 import os
@@ -13,17 +14,22 @@ import tempfile
 import corpus
 from run import Broken, Violation, VERIF, REPO
 
-GEN = ["Effects"]
+GEN = ["Effects", "ModState"]
 RULE = ("cases = (fixture or generated document x hash seed) digests in fresh interpreters + (result x random observer "
-        "sequence) + (payload stream x random op sequence vs the Lean stream model) + repeat/in-place checks; "
+        "sequence) + (payload stream x random op sequence vs the Lean stream model) + repeat/in-place checks (all framing "
+        "variants: bytes in front of / behind the document) with a frame check of every process-global cell + (document x "
+        "history): declare/use pairs, fixtures and variants extracted in opposite orders in fresh interpreters, each twice "
+        "+ (BytesIO x random read/write op sequence vs the Lean input-buffer model) + dict.setdefault overlay model; "
         "distinct = distinct (input, seed) / (input, sequence) pairs; non-trivial = result has units/images/tables or "
         "the sequence contains at least two different observers")
 ASSUMPTIONS = [
     "third-party parsers are deterministic (only sampled: digests across PYTHONHASHSEED values and fresh processes)",
     "the AST inventories of tools/gen/effects.py find every set-to-ordered conversion, observer-side write, input-stream method and id()/hash() use (local type inference for sets)",
-    "io.BytesIO semantics as modelled in S2T/Model/Observe.lean (tied by correspondence on real payload streams)",
+    "io.BytesIO semantics as modelled in S2T/Model/Observe.lean and S2T/Model/InputStream.lean (tied by correspondence on real streams)",
+    "tools/gen/modstate.py finds every non-read use of a module-/class-level mutable container (AST + runtime types; callees a table is passed to are reviewed by hand); harness/workers/c06_state.py fingerprints every such cell around each extraction",
+    "process state outside the package and outside the sampled interpreter registries (third-party module globals) is not fingerprinted",
 ]
-TRUSTED = ["tools/gen/effects.py (AST inventories)"]
+TRUSTED = ["tools/gen/effects.py, tools/gen/modstate.py (AST inventories)", "harness/workers/c06_state.py (cell fingerprints)"]
 
 OBS = ["full_text", "units", "images", "tables", "metadata", "to_json"]
 
@@ -79,6 +85,291 @@ def _full_json(r):
     return _canon(serialize_extraction(r, include_binary=True))
 
 
+sys.path.insert(0, os.path.join(VERIF, "harness", "workers"))
+import c06_state  # noqa: E402
+
+_VOLATILE = None
+
+
+def _volatile(ctx):
+    """cells the Lean side (S2T.Spec.C06Cells.volatileCells) lets change during an extraction"""
+    global _VOLATILE
+    if _VOLATILE is None:
+        try:
+            _VOLATILE = sorted(set(ctx.drive([{"op": "c06.cells"}])[0]["volatile"]))
+        except Exception:
+            _VOLATILE = []
+    return _VOLATILE
+
+
+def _framing_variants(ctx, fx, per_ext=None):
+    """accepted documents with bytes in front of / behind them (one small fixture per extension)"""
+    from builders import c06_decls
+    rng = ctx.rng
+    by_ext = {}
+    for n, d in fx:
+        ext = os.path.splitext(n)[1].lower()
+        if "password" in n or not corpus.file_type_of(n) or len(d) > 200_000:
+            continue
+        if ext not in by_ext or len(d) < len(by_ext[ext][1]):
+            by_ext[ext] = (n, d)
+    out = []
+    for ext in sorted(by_ext):
+        name, data = by_ext[ext]
+        if not _results_of(name, data):
+            continue
+        cands = list(c06_decls.framings(rng, name, data))
+        if per_ext is not None and len(cands) > per_ext:
+            keep = [c for c in cands if c[0] in ("pre-bom-crlf", "pre-pad1019")]
+            rest = [c for c in cands if c[0] not in ("pre-bom-crlf", "pre-pad1019")]
+            cands = keep + rng.sample(rest, per_ext - len(keep))
+        root, e = os.path.splitext(name)
+        for kind, b in cands:
+            ctx.count("framing/tried")
+            if _results_of(name, b):
+                ctx.count("framing/accepted/" + ext.lstrip("."))
+                out.append((f"{root}~frame-{kind}{e}", b))
+    return out
+
+
+def _pair_docs(ctx, rounds):
+    """[(tag, (nameA, bytesA), (nameB, bytesB))] with unique names"""
+    from builders import c06_decls
+    out = []
+    for i, (tag, (na, a), (nb, b)) in enumerate(c06_decls.pairs(ctx.rng, rounds)):
+        out.append((tag, (f"generated/pair{i}~{na}", a), (f"generated/pair{i}~{nb}", b)))
+    return out
+
+
+def _run_history_workers(jobs):
+    """jobs: [{"docs": [[name, path]], "order": [...], "pass2": bool, "volatile": [...]}] -> list of answers (None on failure)"""
+    worker = os.path.join(VERIF, "harness", "workers", "c06_history.py")
+    outs = [None] * len(jobs)
+    for lo in range(0, len(jobs), 8):
+        procs = []
+        for k, job in enumerate(jobs[lo: lo + 8]):
+            env = dict(os.environ, PYTHONHASHSEED="0", S2T_REPO=REPO, PYTHONPATH=REPO)
+            p = subprocess.Popen(["/venv/bin/python", worker], stdin=subprocess.PIPE, stdout=subprocess.PIPE, stderr=subprocess.DEVNULL, env=env)
+            p.stdin.write(json.dumps(job).encode())
+            p.stdin.close()
+            procs.append((lo + k, p))
+        for k, p in procs:
+            out = p.stdout.read()
+            p.wait()
+            try:
+                outs[k] = json.loads(out)
+            except Exception:
+                outs[k] = None
+    return outs
+
+
+def _doc_ref(name, data):
+    """how a replay file names a document: a repository fixture by path, anything else by content"""
+    p = os.path.join(corpus.RES, name)
+    if os.path.exists(p) and "~" not in name and not name.startswith("generated/"):
+        return {"name": name, "fixture": name}
+    return {"name": name, "data_b64": base64.b64encode(data).decode()}
+
+
+def _doc_bytes(ref):
+    if "data_b64" in ref:
+        return base64.b64decode(ref["data_b64"])
+    with open(os.path.join(corpus.RES, ref["fixture"]), "rb") as fh:
+        return fh.read()
+
+
+def _history_digests(td, seqs, volatile=()):
+    """seqs: list of lists of (name, bytes); each list is extracted in order in its own fresh interpreter.
+    Returns per list the worker answer."""
+    jobs = []
+    for k, seq in enumerate(seqs):
+        docs = []
+        for i, (name, data) in enumerate(seq):
+            # the path is part of the result (metadata): one document = one path in every sequence
+            p = os.path.join(td, "doc_" + hashlib.sha1(name.encode()).hexdigest()[:10] + "_" + os.path.basename(name).replace("~", "_"))
+            if not os.path.exists(p):
+                with open(p, "wb") as fh:
+                    fh.write(data)
+            docs.append([name, p])
+        jobs.append({"docs": docs, "order": list(range(len(docs))), "pass2": False, "volatile": list(volatile)})
+    return _run_history_workers(jobs)
+
+
+def _pin_history(td, target, candidates, cap=24):
+    """find a concrete history: documents `before` such that `target` yields something else after them than in a
+    fresh interpreter.  Returns (before_list, fresh_digest, after_digest) or None."""
+    fresh = _history_digests(td, [[target]])[0]
+    if not fresh:
+        return None
+    f = fresh["pass1"].get(target[0])
+    cands = [c for c in candidates if c[0] != target[0]][:cap]
+    outs = _history_digests(td, [[c, target] for c in cands])
+    for c, o in zip(cands, outs):
+        if o and o["pass1"].get(target[0]) != f:
+            return [c], f, o["pass1"].get(target[0])
+    if len(cands) > 1:
+        o = _history_digests(td, [cands + [target]])[0]
+        if o and o["pass1"].get(target[0]) != f:
+            return cands, f, o["pass1"].get(target[0])
+    return None
+
+
+def _history(ctx, docs, suspects_first=()):
+    """(document x history): every document must yield the same whatever was extracted before it in the process.
+    Two (thorough: four) fresh interpreters extract the set in opposite (and shuffled) orders, each document
+    once more after the whole set; every process-global cell is fingerprinted around each extraction."""
+    broken = []
+    if not docs:
+        return broken
+    vol = _volatile(ctx)
+    by_name = dict(docs)
+    with tempfile.TemporaryDirectory(prefix="s2t_c06h_") as td:
+        paths = []
+        for i, (name, data) in enumerate(docs):
+            p = os.path.join(td, f"d{i}_" + os.path.basename(name).replace("~", "_"))
+            with open(p, "wb") as fh:
+                fh.write(data)
+            paths.append([name, p])
+        n = len(paths)
+        orders = [list(range(n)), list(range(n - 1, -1, -1))]
+        if ctx.thorough:
+            for _ in range(2):
+                o = list(range(n))
+                ctx.rng.shuffle(o)
+                orders.append(o)
+        outs = _run_history_workers([{"docs": paths, "order": o, "pass2": True, "volatile": vol} for o in orders])
+        if any(o is None for o in outs):
+            broken.append(Broken("correspondence", "c06.worker", "history worker failed"))
+            outs = [o for o in outs if o is not None]
+        if not outs:
+            return broken
+        bad, state_changers = [], []
+        for name, _ in docs:
+            vals = [o["pass1"].get(name) for o in outs] + [o["pass2"].get(name) for o in outs]
+            ctx.case(("history", name, len(orders)), nontrivial=not str(vals[0]).startswith(("ERR", "OTHER")))
+            ctx.count("history/" + ("same" if len(set(vals)) == 1 else "DIFFERENT"))
+            if len(set(vals)) != 1:
+                bad.append(name)
+            cells = sorted({c for o in outs for c in o["changed"].get(name, [])})
+            if cells:
+                state_changers.append((name, cells))
+                ctx.count("history/state-changed")
+        for name, cells in state_changers[:6]:
+            broken.append(Broken("correspondence", "c06.modstate", f"{name}: extraction changed process-global state {cells[:6]}",
+                                 case={"kind": "modstate", "doc": _doc_ref(name, by_name[name]), "cells": cells[:12]}))
+        # pin every differing document (and, for state changes nobody observed yet, look for an observer) to a concrete history
+        changer_docs = [(nm, by_name[nm]) for nm, _ in state_changers]
+        targets = bad[:4]
+        for name in targets:
+            ext = os.path.splitext(name)[1].lower()
+            cands = changer_docs + [d for d in docs if os.path.splitext(d[0])[1].lower() == ext and d not in changer_docs] \
+                + [d for d in docs if os.path.splitext(d[0])[1].lower() != ext and d not in changer_docs]
+            pin = _pin_history(td, (name, by_name[name]), cands)
+            if pin:
+                before, f, a = pin
+                broken.append(Broken("correspondence", "c06.history",
+                                     f"{name}: yields {str(a)[:16]} after {[b[0] for b in before][:3]} were extracted in the process, {str(f)[:16]} in a fresh process",
+                                     case={"kind": "history", "doc": _doc_ref(name, by_name[name]), "before": [_doc_ref(*b) for b in before]}))
+            else:
+                broken.append(Broken("correspondence", "c06.history-unpinned", f"{name}: digests differ between extraction orders {orders[0][:3]}…, no single predecessor reproduces it",
+                                     case={"kind": "history-unpinned", "doc": name}))
+        if state_changers and not bad:
+            # the state change was not observed by the set as ordered: try every document of the same format behind each changer
+            for nm, cells in state_changers[:3]:
+                ext = os.path.splitext(nm)[1].lower()
+                same = [d for d in docs if os.path.splitext(d[0])[1].lower() == ext and d[0] != nm][:16]
+                fresh = _history_digests(td, [[d] for d in same])
+                after = _history_digests(td, [[(nm, by_name[nm]), d] for d in same])
+                for d, f, a in zip(same, fresh, after):
+                    if f and a and f["pass1"].get(d[0]) != a["pass1"].get(d[0]):
+                        broken.append(Broken("correspondence", "c06.history", f"{d[0]}: yields something else after {nm} was extracted in the process than in a fresh process",
+                                             case={"kind": "history", "doc": _doc_ref(*d), "before": [_doc_ref(nm, by_name[nm])]}))
+                        break
+    ctx.sample({"history_docs": len(docs), "orders": len(orders), "volatile_cells": vol})
+    return broken
+
+
+def _instream_model(ctx):
+    """real io.BytesIO under random read/seek/write/truncate sequences vs the Lean input-buffer model"""
+    broken = []
+    rng = ctx.rng
+    reqs, reals = [], []
+    for _ in range(ctx.n(60, 600)):
+        content = [rng.randrange(256) if rng.random() < 0.8 else 10 for _ in range(rng.randint(0, 24))]
+        b = io.BytesIO(bytes(content))
+        ops, states = [], []
+        for _ in range(rng.randint(1, 9)):
+            o = rng.choice(["read", "readAll", "readline", "readinto", "seek", "tell", "getvalue", "getbuffer", "seekable", "readable",
+                            "write", "write", "truncate", "truncate", "writelines"])
+            if o in ("read", "readinto"):
+                k = rng.randint(0, 30)
+                b.read(k) if o == "read" else b.readinto(bytearray(k))
+                ops.append([o, k])
+            elif o == "readAll":
+                b.read()
+                ops.append([o])
+            elif o == "readline":
+                b.readline()
+                ops.append([o])
+            elif o == "seek":
+                k = rng.randint(0, 30)
+                b.seek(k)
+                ops.append([o, k])
+            elif o in ("write", "writelines"):
+                w = [rng.randrange(256) for _ in range(rng.randint(0, 6))]
+                b.write(bytes(w)) if o == "write" else b.writelines([bytes(w)])
+                ops.append([o, w])
+            elif o == "truncate":
+                k = rng.choice([None, rng.randint(0, 30)])
+                b.truncate(k)
+                ops.append([o, k])
+            else:
+                {"tell": b.tell, "getvalue": b.getvalue, "seekable": b.seekable, "readable": b.readable,
+                 "getbuffer": lambda: b.getbuffer().release()}[o]()
+                ops.append([o])
+            states.append({"content": list(b.getvalue()), "pos": b.tell()})
+        reqs.append({"op": "c06.instream", "content": content, "ops": ops})
+        reals.append(states)
+    outs = ctx.drive(reqs)
+    for rq, real, o in zip(reqs, reals, outs):
+        ctx.case(("instream", json.dumps(rq["ops"]), len(rq["content"])), nontrivial=len(rq["ops"]) >= 2)
+        ctx.count("instream/" + ("mutating" if not all(o.get("readonly", [True])) else "readonly"))
+        if "drv_error" in o or o["states"] != real:
+            broken.append(Broken("correspondence", "c06.instream", f"BytesIO vs model: ops={rq['ops']} real={real} model={o}", case={"kind": "instream", "req": rq}))
+        elif all(o["readonly"]) and real and real[-1]["content"] != rq["content"]:
+            broken.append(Broken("correspondence", "c06.instream", f"read-only ops changed a real BytesIO: {rq}", case={"kind": "instream", "req": rq}))
+    return broken
+
+
+def _overlay_model(ctx):
+    """dict.setdefault on a copy / on the table itself (Python reference) vs S2T.History.overlayCopy / overlayAlias"""
+    broken = []
+    rng = ctx.rng
+    reqs, refs = [], []
+    for _ in range(ctx.n(40, 400)):
+        table = {}
+        for _ in range(rng.randint(0, 4)):
+            table.setdefault(rng.randint(0, 6), rng.randint(10, 99))
+        docs = [{"decls": [[rng.randint(0, 8), rng.randint(100, 999)] for _ in range(rng.randint(0, 3))],
+                 "uses": [rng.randint(0, 8) for _ in range(rng.randint(0, 4))]} for _ in range(rng.randint(1, 4))]
+        alias = rng.random() < 0.5
+        g = dict(table)
+        outs = []
+        for d in docs:
+            t = g if alias else dict(g)
+            for k, v in d["decls"]:
+                t.setdefault(k, v)
+            outs.append([t.get(k, k + 1000000) for k in d["uses"]])
+        reqs.append({"op": "c06.overlay", "table": [[k, v] for k, v in table.items()], "docs": docs, "alias": alias})
+        refs.append(outs)
+    for rq, ref, o in zip(reqs, refs, ctx.drive(reqs)):
+        ctx.case(("overlay", json.dumps(rq)), nontrivial=len(rq["docs"]) >= 2)
+        ctx.count("overlay/" + ("alias" if rq["alias"] else "copy"))
+        if o.get("outputs") != ref:
+            broken.append(Broken("correspondence", "c06.overlay", f"setdefault overlay: python={ref} model={o} for {rq}", case={"kind": "overlay", "req": rq}))
+    return broken
+
+
 def _observer_sequences(ctx, fx):
     broken = []
     rng = ctx.rng
@@ -115,11 +406,14 @@ def _observer_sequences(ctx, fx):
     return broken
 
 
-def _repeat_and_input(ctx, fx):
+def _repeat_and_input(ctx, fx, must=()):
+    """`must` documents are always checked (framing variants, declare/use pairs), `fx` is sampled in the quick tier"""
     broken = []
     picks = [(n, d) for n, d in fx if len(d) < 500_000]
     if not ctx.thorough:
         picks = ctx.rng.sample(picks, min(25, len(picks)))
+    picks = list(must) + picks
+    vol = _volatile(ctx)
     from sharepoint2text.parsing import router
     for name, data in picks:
         ft = corpus.file_type_of(name)
@@ -129,17 +423,31 @@ def _repeat_and_input(ctx, fx):
         fn = corpus.extractor(m, f)
         buf = io.BytesIO(data)
         outs = []
-        for _ in range(2):
+        cells = []
+        after = c06_state.cells()
+        for k in range(2):
+            before, nmods = after, len(sys.modules)
             try:
                 outs.append([_full_json(r) for r in fn(buf, name)])
             except corpus.family() as e:
                 outs.append("ERR:" + type(e).__name__)
+            after = c06_state.cells()
+            ch = c06_state.changed(before, after, vol)
+            if len(sys.modules) != nmods:      # lazy import of a third-party package: its module-level code is not per-document state
+                ch = [c for c in ch if not c.startswith("<interp>:")]
+            cells += ch
         ctx.case(("repeat", name))
         ctx.count("repeat/" + ("ok" if isinstance(outs[0], list) else "family"))
+        ref = _doc_ref(name, data)
         if outs[0] != outs[1]:
-            broken.append(Broken("correspondence", "c06.repeat", f"{name}: two extractions of the same buffer in one process differ", case={"kind": "repeat", "fixture": name}))
+            broken.append(Broken("correspondence", "c06.repeat", f"{name}: two extractions of the same buffer in one process differ", case={"kind": "repeat", "fixture": name, **({"data_b64": ref["data_b64"]} if "data_b64" in ref else {})}))
         if buf.getvalue() != data:
-            broken.append(Broken("correspondence", "c06.input", f"{name}: the caller's buffer content changed", case={"kind": "repeat", "fixture": name}))
+            now = buf.getvalue()
+            broken.append(Broken("correspondence", "c06.input", f"{name}: the caller's buffer content changed ({len(data)} bytes {data[:12]!r}… before, {len(now)} bytes {now[:12]!r}… after)",
+                                 case={"kind": "repeat", "fixture": name, **({"data_b64": ref["data_b64"]} if "data_b64" in ref else {})}))
+        if cells:
+            broken.append(Broken("correspondence", "c06.modstate", f"{name}: extraction changed process-global state {sorted(set(cells))[:6]}",
+                                 case={"kind": "modstate", "doc": ref, "cells": sorted(set(cells))[:12]}))
     return broken
 
 
@@ -287,43 +595,100 @@ def _generated_docs(ctx):
     return out
 
 
+def _history_set(ctx, fx, pairs, framed):
+    """documents for the history check: every declare/use pair (A directly before B), small fixtures, some framing variants"""
+    docs = []
+    for tag, a, b in pairs:
+        docs += [a, b]
+    small = [(n, d) for n, d in fx if len(d) < (1_000_000 if ctx.thorough else 150_000) and "password" not in n and corpus.file_type_of(n)]
+    if not ctx.thorough:
+        small = ctx.rng.sample(small, min(40, len(small)))
+    docs += small
+    docs += framed if ctx.thorough else ctx.rng.sample(framed, min(12, len(framed)))
+    return docs
+
+
 def correspondence(ctx):
     fx = corpus.fixtures()
     broken = []
     variants = _accepted_variants(ctx, fx, ctx.n(1, 8)) + _generated_docs(ctx)
+    framed = _framing_variants(ctx, fx, per_ext=None if ctx.thorough else 7)
+    pairs = _pair_docs(ctx, ctx.n(2, 8))
+    pair_docs = [d for _, a, b in pairs for d in (a, b)]
+    for tag, a, b in pairs[:3]:
+        ctx.sample({"declare_use_pair": tag, "A": a[0], "B": b[0]})
     ctx.count("variants/accepted", len(variants))
+    ctx.count("variants/framed", len(framed))
+    ctx.count("pairs", len(pairs))
     with tempfile.TemporaryDirectory(prefix="s2t_c06_") as td:
         fx_paths = [(rel, os.path.join(corpus.RES, rel)) for rel, d in fx if len(d) < (2_600_000 if ctx.thorough else 450_000)]
-        for i, (name, b) in enumerate(variants):
+        for i, (name, b) in enumerate(variants + (framed if ctx.thorough else framed[::5])):
             p = os.path.join(td, f"v{i}_" + os.path.basename(name))
             with open(p, "wb") as fh:
                 fh.write(b)
             fx_paths.append((name, p))
         broken += _hash_seeds(ctx, fx_paths)
-    broken += _repeat_and_input(ctx, fx + variants)
+    broken += _repeat_and_input(ctx, fx + variants, must=framed + pair_docs)
+    broken += _history(ctx, _history_set(ctx, fx, pairs, framed))
     broken += _observer_sequences(ctx, fx + variants)
     broken += _stream_model(ctx, fx)
+    broken += _instream_model(ctx)
+    broken += _overlay_model(ctx)
     return {"broken": broken, "violations": []}
 
 
+def _violation_of(b):
+    c = dict(b.case or {})
+    kind = c.get("kind")
+    if kind in ("seed", "repeat", "observe"):
+        if ("~" in c.get("fixture", "") or c.get("fixture", "").startswith("generated/")) and c["fixture"] in _DATA and "data_b64" not in c:
+            c["data_b64"] = base64.b64encode(_DATA[c["fixture"]]).decode()
+        return Violation(b.name.replace("c06.", "") + ":" + os.path.basename(c.get("fixture", "?")), b.detail, c)
+    if kind == "history":
+        return Violation("history:" + os.path.basename(c["doc"]["name"]).split("~")[-1] + "<-" + os.path.basename(c["before"][0]["name"]).split("~")[-1], b.detail, c)
+    return None
+
+
 def search(ctx, broken):
-    """the property statement on the real code: digests across seeds, repeat, observers"""
+    """the property statement on the real code: digests across seeds / histories, repeat, input buffer, observers"""
     out = []
     fx = corpus.fixtures()
+    per = {}
     for b in broken:
-        c = b.case or {}
-        if b.kind == "correspondence" and c.get("kind") in ("seed", "repeat", "observe"):
-            if ("~" in c.get("fixture", "") or c.get("fixture", "").startswith("generated/")) and c["fixture"] in _DATA:
-                c["data_b64"] = base64.b64encode(_DATA[c["fixture"]]).decode()
-            out.append(Violation(b.name.replace("c06.", "") + ":" + os.path.basename(c.get("fixture", "?")), b.detail, c))
+        if b.kind == "correspondence":
+            v = _violation_of(b)
+            if v is not None and per.get(b.name, 0) < 3:      # three witnesses per mechanism are enough
+                per[b.name] = per.get(b.name, 0) + 1
+                out.append(v)
     if out:
         return out
-    # an inventory / theorem broke: run the full oracles
+    # an inventory / theorem / frame obligation broke without an observed difference: run the full oracles on
+    # everything the generators know (all framing variants, more declare/use pairs, every fixture, every history)
     sub = type(ctx)(ctx.prop, "thorough", ctx.seed)
     fx_paths = [(rel, os.path.join(corpus.RES, rel)) for rel, d in fx if len(d) < 2_600_000]
-    for b in _hash_seeds(sub, fx_paths) + _repeat_and_input(sub, fx) + _observer_sequences(sub, fx):
+    framed = _framing_variants(sub, fx)
+    pairs = _pair_docs(sub, 6)
+    pair_docs = [d for _, a, b in pairs for d in (a, b)]
+    # documents named by a broken frame obligation go first into the history set
+    named = []
+    for b in broken:
         c = b.case or {}
-        out.append(Violation(b.name.replace("c06.", "") + ":" + os.path.basename(c.get("fixture", "?")), b.detail, c))
+        if c.get("kind") == "modstate":
+            try:
+                named.append((c["doc"]["name"], _doc_bytes(c["doc"])))
+            except Exception:
+                pass
+    found = _repeat_and_input(sub, [], must=framed + pair_docs)
+    found = [b for b in found if (b.case or {}).get("kind") != "modstate"]
+    if not found:
+        hist = named + [d for d in _history_set(sub, [(n, d) for n, d in fx if len(d) < 300_000], pairs, framed[::4]) if d[0] not in {n for n, _ in named}]
+        found += [b for b in _history(sub, hist) if (b.case or {}).get("kind") == "history"]
+    if not found:
+        found += _repeat_and_input(sub, fx) + _hash_seeds(sub, fx_paths) + _observer_sequences(sub, fx)
+    for b in found:
+        v = _violation_of(b)
+        if v is not None:
+            out.append(v)
         if len(out) >= 5:
             break
     return out
@@ -334,6 +699,18 @@ def replay(ctx, payload):
     fx = dict(corpus.fixtures())
     if "data_b64" in c:
         fx[c["fixture"]] = base64.b64decode(c["data_b64"])
+    if c.get("kind") == "history":
+        target = (c["doc"]["name"], _doc_bytes(c["doc"]))
+        before = [(r["name"], _doc_bytes(r)) for r in c["before"]]
+        with tempfile.TemporaryDirectory(prefix="s2t_c06r_") as td:
+            fresh, after = _history_digests(td, [[target], before + [target]])
+        if not fresh or not after:
+            return False, "history worker failed"
+        f, a = fresh["pass1"].get(target[0]), after["pass1"].get(target[0])
+        names = [b[0] for b in before]
+        if f != a:
+            return False, f"{target[0]} yields {str(a)[:16]} after {names} were extracted in the same process, {str(f)[:16]} in a fresh process"
+        return True, f"{target[0]} yields the same in a fresh process and after {names}"
     if c.get("kind") == "seed" and "data_b64" in c:
         with tempfile.TemporaryDirectory(prefix="s2t_c06_") as td:
             p = os.path.join(td, os.path.basename(c["fixture"]))
@@ -361,5 +738,6 @@ def replay(ctx, payload):
         return True, "observation leaves the result unchanged"
     if c.get("kind") == "repeat":
         b = _repeat_and_input(type(ctx)(ctx.prop, "thorough", ctx.seed), [(c["fixture"], fx[c["fixture"]])])
+        b = [x for x in b if x.name != "c06.modstate"]      # a frame obligation, not the property statement
         return (not b), "; ".join(x.detail for x in b) or "repeatable, input untouched"
     return False, "replay names a broken obligation, not an input: " + payload.get("what", "")
